@@ -411,11 +411,14 @@ func (fd *Client) Query(ctx context.Context, input *dynamodb.QueryInput, opt ...
 		return nil, &smithy.GenericAPIError{Code: "ValidationException", Message: err.Error()}
 	}
 
+	queryInput := mapDynamoToTypesQueryInput(input, indexName)
+
+	// forward is the default; the input belongs to the caller and is not written to
 	if input.ScanIndexForward == nil {
-		input.ScanIndexForward = aws.Bool(true)
+		queryInput.ScanIndexForward = true
 	}
 
-	items, lastKey := table.SearchData(mapDynamoToTypesQueryInput(input, indexName))
+	items, lastKey := table.SearchData(queryInput)
 
 	count := int64(len(items))
 
